@@ -17,7 +17,10 @@ PROP = dict(
                    "covers and every ancestor answer with what was set, in any letter case and also when the key was absent before (C16_set_get, C16_set_seen_below, "
                    "C16_set_seen_through_ancestor, C16_set_present); a tag resolved AGAIN is resolved under the configuration as it is then (C16_resolve_again_current) - "
                    "tied by histories resolve / Set / resolve on the real binder. The tag TEXT: NewProperty cuts the arguments off at the first top-level comma (Ioc.Tag.parse?), so a value part "
-                   "whose commas all lie inside its (nested) blocks reaches the processor whole (C16_arguments_cut_outside, C16_text_total) - tied by tag texts with arguments through the real NewProperty.",
+                   "whose commas all lie inside its (nested) blocks reaches the processor whole (C16_arguments_cut_outside, C16_text_total) - tied by tag texts with arguments through the real NewProperty. "
+                   "AS WRITTEN: the text a tag resolves to holds no placeholder, so the tag written with that text leaves the placeholder stage with the same TagVal under every configuration, "
+                   "also from the tag text with the same arguments behind (C16_as_written, C16_as_written_text); that the LATER stages treat both alike is judged on real Apps: a field tagged T "
+                   "and a field tagged with the text T becomes when every placeholder is replaced by hand are started under the same configuration and must end the same way (oracle placeholder-as-written).",
         level_note="Modelled, not verified: Go regexp (leftmost-first) for the fixed pattern, strings.Replace/SplitN, viper.Get/AllSettings path lookup, "
                    "strconv2.ParseAny/FormatAny on the default text, json.Marshal and %v of configured values. Defaults that are slice/map literals or numbers "
                    "with more than 15 significant digits are left unmodelled (explicit outcome; such cases are run and judged by the oracles only, and counted).",
@@ -45,6 +48,16 @@ PROP = dict(
              "placeholders as arguments of an expression (`#{max(${low:1},${quota.${tier}:100})}`, nested calls), a call in the default, two blocks in one tag; each under the designed and a "
              "mutated configuration, a quarter of those with inert arguments also end to end. Oracles: the value part of a bracket-balanced text is the text before its first top-level "
              "comma by the harness's own reader - a processor handed anything else has not replaced the tag's placeholders (placeholder-tagtext) -, then the substitution oracle on that value part. "
+             "After these (eighth round) n/12 groups AS WRITTEN (scenario `W <kind> …`): configured values that ARE expressions `#{…}` (arithmetic, string concatenation, comparison / and / or / not / in, "
+             "lists and ranges, ternaries, max / min / len / upper / lower / trim; operands literal or placeholders for further keys, with and without defaults) reach a tag only through a replacement "
+             "(`${cache.ttl}` with `cache.ttl: \"#{60*60}\"`), through a chain of values, through a key selected by a placeholder (`${cache.${which}}`), between literals, twice in one tag, next to or inside an "
+             "expression that IS written in the tag (`#{${a}+${b:2}}`, an operand whose value is an expression again), plain values and defaults for comparison, a wrapper inside another placeholder's default "
+             "(arriving or written); the field is string / int / bool / []int / float64 / []string (mostly the kind the expression gives), 0-2 arguments behind (required forms, validate=…); each under the designed and a "
+             "mutated configuration. The real processor's result is compared with the model and the substitution as for `T`; then TWO real Apps are started, one whose field is tagged with the text T, one whose field "
+             "is tagged with T' = the harness's own substitution of T's value part + the same arguments: same bound value or both a start error (placeholder-as-written; whatever the value path normalises - KF-C17-* - "
+             "happens in both runs). The oracle abstains where T' does not exist or is not defined by the library's placeholder grammar: the replacement brings a top-level comma / unbalanced bracket into the value part "
+             "(no written tag has that value part), or an expression wrapper lands INSIDE another placeholder's key or default (`${zz:${e}}` with e: \"#{1+2}\": the scanner's placeholders have brace-free contents, the "
+             "enclosing text is no placeholder any more and stays - see the assumptions). "
              "A case is non-trivial when the tag contains a placeholder; distinct = distinct scenario lines",
         trusted_base=COMMON_TB + ["Go regexp, strings.Replace/SplitN, viper v1.19 Get/AllSettings, strconv2 v0.0.2 ParseAny/FormatAny, encoding/json and fmt %v as modelled in "
                                   "Ioc.Placeholder (validated by the correspondence)",
@@ -58,6 +71,10 @@ PROP = dict(
                      "histories: Set is never handed nil (AllSettings - `${}` - rebuilds its answer inside the maps of viper's override layer in Go's map order; with a stored nil the "
                      "answer depends on that order), map values handed to Set have no two keys that differ only in letter case; what a lookup answers BESIDE a path that was set "
                      "(`db.port` through `${db}` after Set(\"db.host\")) follows viper's layering - the model has it, the oracle claims nothing there",
+                     "as written: replacement texts with braces are followed only as whole expression wrappers `#{…}` (brace-free text and placeholders inside) standing OUTSIDE every other placeholder's key and default. "
+                     "OBSERVED on the unchanged library and NOT judged: a wrapper inside another placeholder's default or key - `value:\"${zz:${e}}\"` with e: \"#{1+2}\", or written `value:\"${zz:#{1+2}}\"` - hides the enclosing "
+                     "placeholder from the scanner `${[^{}]*}`; it is never replaced, the expression inside it is evaluated and a string field receives the text `${zz:3}` (an int field fails), while `value:\"#{1+2}\"` gives 3; "
+                     "`value:\"${k:#{4}}\"` with k CONFIGURED gives `${k:4}`, not k's value",
                      "known findings KF-C16-1 (default = lone quote character) and KF-C16-2 (negative list index in a key) are Go panics of dependencies; the model pins "
                      "them as `panic` outcomes (C16_*_counterexample)"],
     )
